@@ -1,5 +1,6 @@
 import Aurora.Lemmas.Upload
 import Aurora.Lemmas.SpecTree
+import Aurora.Lemmas.HashTrieBuf
 import Aurora.Generated.Consts
 /-!
 # C02 — Content reference is the Aurora tree hash of the bytes alone
@@ -100,5 +101,108 @@ example (data : Bytes) (h : data.length < 2 ^ 64) :
   have : data.length / 262144 < 2 ^ 64 := Nat.lt_of_le_of_lt (Nat.div_le_self _ _) h
   have h2 : (2 : Nat) ^ 64 + 1 < 8192 ^ 7 := by decide
   omega
+
+/-! ## The literal cursor machine (`Model/HashTrieBuf.lean`) refines the list machine
+
+`hashtrie.go` keeps all levels in ONE byte buffer with `cursors[1..8]`; `Model/HashTrieBuf.lean`
+transcribes that code (every index expression that can panic in Go yields `Err.panic` there), the
+theorems above are about the per-level list machine `Model/HashTrie.lean`.  The statements below
+close that gap.  `cref` is any chunk reference function with `refLen`-byte outputs (the
+repository's: 32), `B ≥ 2`, and the buffer has at least `(refLen+8)·B·8` bytes. -/
+
+open Aurora.HashTrieBuf in
+/-- **Step-wise simulation through the abstraction function.**  `Sim P s h` (the invariant:
+    cursors monotone `cursors[8] ≤ … ≤ cursors[1] ≤ len(buffer)`, every region
+    `buffer[cursors[l+1]:cursors[l]]` the concatenation of `oneRef`-byte records, fewer than `B`
+    records per level, level 8 empty until `full`) implies: the abstraction function
+    `State.levels` reads exactly the list-machine levels back; `ChainWrite` behaves as the list
+    machine's `chainWrite` (`errTrieFull` included), re-establishes the invariant and hands the same
+    wrapped chunks to the short pipeline; `Sum` returns the record the list machine's `sumUp`
+    leaves in level 8 (minus its span bytes) or the same error.  `short` is ANY short pipeline that
+    returns one `oneRef`-byte record (plain and encrypted configuration). -/
+theorem C02_hashtrie_buffer_step_simulation (P : Params) (hB : 2 ≤ P.branching) (hs : ShortOK P)
+    (s : Aurora.HashTrieBuf.State) (h : State Bytes) (hsim : Sim P s h) :
+    s.levels P = h.levels ∧
+    (∀ span ref key : Bytes, (span ++ ref ++ key).length = P.oneRef →
+      match chainWrite (wrapRaw P) P.branching h (span ++ ref ++ key) with
+      | .error e => e = .trieFull ∧ Aurora.HashTrieBuf.chainWrite P s span ref key = .error .trieFull
+      | .ok (h', gs) => ∃ s', Aurora.HashTrieBuf.chainWrite P s span ref key = .ok s' ∧ Sim P s' h' ∧
+          s'.sent = s.sent ++ gs.map wrapData) ∧
+    (match trieSum (wrapRaw P) P.branching h with
+      | .error _ => Aurora.HashTrieBuf.trieSum P s = .error .inconsistent
+      | .ok (e, gs) => ∃ s', Aurora.HashTrieBuf.trieSum P s = .ok (e.drop 8, s') ∧
+          s'.sent = s.sent ++ gs.map wrapData) :=
+  ⟨Sim_levels P s h hsim, fun span ref key hrec => chainWrite_sim P hB hs s h hsim span ref key hrec,
+    trieSum_sim P hB hs s h hsim⟩
+
+open Aurora.HashTrieBuf in
+/-- **The buffer-and-cursor writer refines the per-level list writer** (whole runs): for every
+    sequence of leaf entries `(span, ref)` with `refLen`-byte references — below, at and beyond the
+    level limit — the literal machine (fresh buffer of `bufLen` bytes, `ChainWrite(le64 span, ref,
+    nil)` for each, then `Sum`) returns the same reference as the list machine run on the entries,
+    has handed the same wrapped chunks (`le64 Σspan ‖ refs`, = the list model's `groupChunk` data)
+    to the short pipeline in the same order, or fails with the same error (`errTrieFull` /
+    `errInconsistentRefs`); it never panics. -/
+theorem C02_hashtrie_buffer_refines_lists (B refLen bufLen : Nat) (hB : 2 ≤ B)
+    (hcref : ∀ sp p, (cref sp p).length = refLen) (hfit : (refLen + 8) * B * 8 ≤ bufLen)
+    (es : List Entry) (hlen : ∀ e ∈ es, e.ref.length = refLen) :
+    runLit (plainParams cref B refLen) bufLen (es.map rec3) = toLit cref (runList B (wrapE cref) es) :=
+  run_refines cref B refLen hB hcref bufLen hfit es hlen
+
+open Aurora.HashTrieBuf in
+/-- the upload pipeline over the literal writer returns what the pipeline over the list writer
+    returns, for every segmentation and every size (errors included) -/
+theorem C02_pipeline_literal_eq_list (C B refLen bufLen : Nat) (hB : 2 ≤ B)
+    (hcref : ∀ sp p, (cref sp p).length = refLen) (hfit : (refLen + 8) * B * 8 ≤ bufLen) (segs : List Bytes) :
+    (uploadLit cref C B refLen bufLen segs).2 = (upload cref C B segs).2 :=
+  uploadLit_eq cref C B refLen hB hcref bufLen hfit segs
+
+open Aurora.HashTrieBuf in
+/-- **`C02_pipeline_ref_eq_spec` for the literal model**: feeder + the buffer-and-cursor hash-trie
+    writer, any segmentation, returns the format's tree hash `Spec.root` below the 8-level limit. -/
+theorem C02_pipeline_ref_eq_spec_literal (C B refLen bufLen : Nat) (hC : 0 < C) (hB : 2 ≤ B)
+    (hcref : ∀ sp p, (cref sp p).length = refLen) (hfit : (refLen + 8) * B * 8 ≤ bufLen) (segs : List Bytes)
+    (hlim : (leafData C segs.flatten).length < B ^ 7) :
+    (uploadLit cref C B refLen bufLen segs).2 = Spec.root cref C B segs.flatten := by
+  rw [uploadLit_eq cref C B refLen hB hcref bufLen hfit segs]
+  exact upload_eq_spec cref C B hC hB segs hlim
+
+open Aurora.HashTrieBuf in
+/-- **The buffer never overflows** — the claim the Go code only comments on ("double size as temp
+    workaround for weak calculation of needed buffer space").  Generic part: for every branching
+    `B ≥ 2`, every reference size and every short pipeline returning one record, a buffer of
+    `(refSize+8)·B·8` bytes suffices: no `buffer[a:b]`, `data[i:j]` or `cursors[l]` expression of a
+    whole run (well-sized records, then `Sum`) is out of range (`Err.panic` is never returned — the
+    model raises it exactly where Go would panic).  Instances: the repository's buffer
+    (`ChunkWithSpanSize*9*2 = 4718736` bytes, generated constants) is large enough for the plain
+    configuration (`refLen = HashSize`, `B = Branches`: 2621440 bytes needed) and for the encrypted
+    one (`refLen = 2·HashSize`, `B = EncryptedBranches`: 2359296 bytes). -/
+theorem C02_buffer_never_overflows :
+    (∀ (P : Params) (bufLen : Nat) (recs : List (Bytes × Bytes × Bytes)), 2 ≤ P.branching → ShortOK P →
+      (P.refSize + 8) * P.branching * 8 ≤ bufLen →
+      (∀ r ∈ recs, (r.1 ++ r.2.1 ++ r.2.2).length = P.refSize + 8) →
+      runLit P bufLen recs ≠ .error .panic) ∧
+    (Aurora.Generated.hashSize + Aurora.Generated.spanSize) * Aurora.Generated.branches * 8
+      ≤ Aurora.Generated.chunkWithSpanSize * 9 * 2 ∧
+    (2 * Aurora.Generated.hashSize + Aurora.Generated.spanSize) * Aurora.Generated.encryptedBranches * 8
+      ≤ Aurora.Generated.chunkWithSpanSize * 9 * 2 ∧
+    (∀ (short : Bytes → Bytes × Bytes × Bytes) (recs : List (Bytes × Bytes × Bytes)),
+      let P : Params := { branching := Aurora.Generated.branches, refSize := Aurora.Generated.hashSize, short := short }
+      ShortOK P → (∀ r ∈ recs, (r.1 ++ r.2.1 ++ r.2.2).length = Aurora.Generated.hashSize + 8) →
+      runLit P (Aurora.Generated.chunkWithSpanSize * 9 * 2) recs ≠ .error .panic) := by
+  refine ⟨fun P bufLen recs hB hs hfit hlen => run_no_panic P hB hs bufLen hfit recs hlen, by decide, by decide, ?_⟩
+  intro short recs P hs hlen
+  exact run_no_panic P (show 2 ≤ Aurora.Generated.branches by decide) hs _
+    (show (Aurora.Generated.hashSize + 8) * Aurora.Generated.branches * 8 ≤ Aurora.Generated.chunkWithSpanSize * 9 * 2 by decide) recs hlen
+
+/-! Non-vacuity of the literal statements: the repository's instance satisfies the size premises, a
+    32-byte reference function exists, and the invariant holds initially. -/
+example : (2 : Nat) ≤ branching ∧ (hashBytes + 8) * branching * 8 ≤ Aurora.Generated.chunkWithSpanSize * 9 * 2 := by decide
+example : ∀ sp p : Bytes, ((fun _ _ => List.replicate 32 (0 : UInt8)) sp p).length = 32 := by intro _ _; simp
+example : Aurora.HashTrieBuf.Sim (Aurora.HashTrieBuf.plainParams (fun _ _ => List.replicate 32 0) 8192 32)
+    (Aurora.HashTrieBuf.State.new 4718736) State.new :=
+  Aurora.HashTrieBuf.Sim_new _ (by decide) _ (by decide)
+example : Aurora.HashTrieBuf.ShortOK (Aurora.HashTrieBuf.plainParams (fun _ _ => List.replicate 32 0) 8192 32) :=
+  Aurora.HashTrieBuf.shortOK_plain _ _ _ (by intro _ _; simp)
 
 end Aurora.HashTrie
